@@ -1,6 +1,6 @@
-import Libp2pModel.Proofs.C07Strong
+import Libp2pModel.Proofs.C07Time
 /-!
-# C07 — the four invariants together, through `poll_next_event` and every operation
+# C07 — the five invariants together, through `poll_next_event` and every operation
 -/
 namespace C07
 
@@ -9,18 +9,27 @@ structure Inv2 (s : State) : Prop where
   uniq : Unique s
   ids : Ids s
   strong : Strong s
+  time : Time s
 
-/-- a change that touches none of the fields the invariants read -/
+/-- a change that touches none of the fields the invariants read (the pending-connection list may
+change as long as its ids do not) -/
 theorem Inv2.frame {s s' : State} (h : Inv2 s) (h1 : s'.fixed = s.fixed) (h2 : s'.conns = s.conns)
     (h3 : s'.gone = s.gone) (h4 : s'.behQ = s.behQ) (h5 : s'.pending = s.pending) (h6 : s'.nextEv = s.nextEv)
-    (h7 : s'.dropped = s.dropped) (h8 : s'.pendQ = s.pendQ) (h9 : s'.dialing = s.dialing)
-    (h10 : s'.nextConn = s.nextConn) : Inv2 s' := by
-  refine ⟨?_, ?_, ?_, ?_⟩
+    (h7 : s'.dropped = s.dropped) (h8 : s'.pendQ = s.pendQ)
+    (h9 : s'.dialing.map (·.id) = s.dialing.map (·.id))
+    (h10 : s'.nextConn = s.nextConn) (h11 : s'.clock = s.clock) : Inv2 s' := by
+  refine ⟨?_, ?_, ?_, ?_, ?_⟩
   · exact h.inv.same h1 h5 h4 h6 h7 (by rw [h2, h3]; exact h.inv.conns)
   · refine h.uniq.of_cnt h6 ?_
     intro n; simp only [State.cnt, State.U, h2, h3, h4, h5, h7]
   · exact h.ids.congr (by simp only [State.allIds, h2, h3, h8, h9]) h10
   · exact h.strong.of_mono (Mono.of_conns h2 h3) h5 h7
+  · exact h.time.frame h2 h3 h5 h11
+
+/-- `Pool::add_outgoing` / `add_incoming`: a new pending connection with the next id -/
+theorem Inv2.alloc {s : State} (h : Inv2 s) (p : Nat) (inb res : Bool) : Inv2 (s.alloc p inb res) :=
+  ⟨h.inv.same rfl rfl rfl rfl rfl h.inv.conns, h.uniq.of_cnt rfl (fun _ => rfl), h.ids.alloc p inb res,
+   h.strong.of_mono (Mono.of_conns rfl rfl) rfl rfl, h.time.frame rfl rfl rfl rfl⟩
 
 theorem advanceLocal_dropped {s : State} (hi : Inv s) : (advanceLocal s).dropped = s.dropped := by
   obtain ⟨_, h2⟩ := runAll_spec s.conns (fun k hk => hi.conns k (List.mem_append_left _ hk))
@@ -32,19 +41,23 @@ theorem advanceLocal_dropped {s : State} (hi : Inv s) : (advanceLocal s).dropped
 
 theorem Inv2.updConn {s : State} (h : Inv2 s) (c : Nat) (f : Conn → Conn)
     (hci : ∀ k, CI s.U s.nextEv k → CI s.U s.nextEv (f k)) (htok : ∀ k, (f k).tok = k.tok)
-    (hid : ∀ k, (f k).id = k.id) (hl : ∀ k, (f k).isLive = true → k.isLive = true) :
+    (hid : ∀ k, (f k).id = k.id) (hl : ∀ k, (f k).isLive = true → k.isLive = true)
+    (hest : ∀ k, (f k).estAt = k.estAt) (hseq : ∀ k, (f k).seq = k.seq) :
     Inv2 { s with conns := upd s.conns c f } :=
   ⟨h.inv.updConn c f (fun k _ hk => hci k hk), h.uniq.updSame c f htok, h.ids.updConn c f hid,
-   h.strong.of_mono (Mono.updConn s c f hid hl) rfl rfl⟩
+   h.strong.of_mono (Mono.updConn s c f hid hl) rfl rfl,
+   h.time.updSame c f hid hest (fun k => by
+     have := htok k; unfold Conn.tok at this; exact hseq k)⟩
 
 theorem Inv2.startCloseAt {s : State} (h : Inv2 s) (c : Nat) :
     Inv2 { s with conns := upd s.conns c (Conn.startClose s.buf) } :=
   h.updConn c _ (fun _ hk => hk.startClose _) (tok_startClose _) (startClose_id _)
-    (fun k hk => by rw [startClose_dead] at hk; cases hk)
+    (fun k hk => by rw [startClose_dead] at hk; cases hk) (startClose_estAt _)
+    (fun k => (startClose_fields _ k).1)
 
 theorem Inv2.disconnect {s : State} (h : Inv2 s) (p : Nat) : Inv2 (disconnect s p) :=
   ⟨h.inv.disconnect p, h.uniq.disconnect p, h.ids.disconnect p,
-   h.strong.of_mono (Mono.disconnect s p) rfl rfl⟩
+   h.strong.of_mono (Mono.disconnect s p) rfl rfl, h.time.disconnect p⟩
 
 theorem deliverPending_ids (s : State) (p : Pending) :
     cids (deliverPending s p).1.conns = cids s.conns ∧ (deliverPending s p).1.gone = s.gone ∧
@@ -60,13 +73,14 @@ theorem deliverPending_ids (s : State) (p : Pending) :
 
 theorem Inv2.deliverPending {s : State} {p : Pending} (h : Inv2 s) (hp : s.pending = some p) :
     Inv2 (deliverPending { s with pending := none } p).1 := by
-  refine ⟨h.inv.deliverPending hp, h.uniq.deliverPending hp, ?_, h.strong.deliverPending h.inv hp⟩
+  refine ⟨h.inv.deliverPending hp, h.uniq.deliverPending hp, ?_, h.strong.deliverPending h.inv hp,
+    h.time.deliverPending h.inv hp⟩
   obtain ⟨a, b, c, d, e⟩ := deliverPending_ids { s with pending := none } p
   exact h.ids.congr (by simp only [State.allIds, a, b, c, d]) e
 
 theorem Inv2.handleBeh {s : State} {cmd : BCmd} {rest : List BCmd} (h : Inv2 s) (hp : s.pending = none)
     (hq : s.behQ = cmd :: rest) : Inv2 (handleBeh { s with behQ := rest } cmd) := by
-  refine ⟨h.inv.handleBeh hp hq, h.uniq.handleBeh hp hq, ?_, h.strong.handleBeh hp⟩
+  refine ⟨h.inv.handleBeh hp hq, h.uniq.handleBeh hp hq, ?_, h.strong.handleBeh hp, h.time.handleBeh hp⟩
   cases cmd with
   | one c n => exact h.ids.congr rfl rfl
   | any p n ch => exact h.ids.congr rfl rfl
@@ -80,11 +94,12 @@ theorem Inv2.handleBeh {s : State} {cmd : BCmd} {rest : List BCmd} (h : Inv2 s) 
 
 theorem Inv2.advanceLocal {s : State} (h : Inv2 s) : Inv2 (advanceLocal s) :=
   ⟨h.inv.advanceLocal, h.uniq.advanceLocal h.inv, h.ids.advanceLocal,
-   h.strong.of_mono (Mono.advanceLocal s) (advanceLocal_fields s).2.2.2.2.2 (advanceLocal_dropped h.inv)⟩
+   h.strong.of_mono (Mono.advanceLocal s) (advanceLocal_fields s).2.2.2.2.2 (advanceLocal_dropped h.inv),
+   h.time.advanceLocal h.inv⟩
 
 theorem Inv2.reportClosed {s : State} (h : Inv2 s) (c : Nat) (bad : Bool) : Inv2 (reportClosed s c bad).1 :=
   ⟨h.inv.reportClosed c bad, h.uniq.reportClosed c bad, h.ids.reportClosed c bad,
-   h.strong.of_mono (Mono.reportClosed h.ids c bad) rfl rfl⟩
+   h.strong.of_mono (Mono.reportClosed h.ids c bad) rfl rfl, h.time.reportClosed c bad⟩
 
 theorem reportPending_same (s : State) (m : PendMsg) (bad : Bool) :
     (reportPending s m bad).1.pending = s.pending ∧ (reportPending s m bad).1.dropped = s.dropped := by
@@ -94,7 +109,16 @@ theorem Inv2.reportPending {s : State} (h : Inv2 s) (m : PendMsg) (hm : m ∈ s.
     Inv2 (reportPending s m bad).1 :=
   ⟨h.inv.reportPending m bad, h.uniq.reportPending m bad, h.ids.reportPending m hm bad,
    h.strong.of_mono (Mono.reportPending h.ids m hm bad) (reportPending_same s m bad).1
-     (reportPending_same s m bad).2⟩
+     (reportPending_same s m bad).2,
+   h.time.reportPending m bad (by
+     -- a connection that is only now reported cannot be among the captured (= established) ids
+     intro p ids0 hp ht hmem
+     have h1 : m.id ∈ s.estIds := h.strong.cap p ids0 hp ht m.id hmem
+     have h2 : 0 < s.estIds.count m.id := List.count_pos_iff.2 h1
+     have h3 : 0 < (s.pendQ.map (·.id)).count m.id := List.count_pos_iff.2 (List.mem_map.2 ⟨m, hm, rfl⟩)
+     have h4 := h.ids.uniq m.id
+     simp only [State.allIds, State.estIds, List.count_append] at h2 h4
+     omega)⟩
 
 theorem Inv2.poolPoll {s : State} (h : Inv2 s) (pick : Option Nat) : Inv2 (poolPoll s pick).1 := by
   unfold C07.poolPoll
@@ -106,10 +130,21 @@ theorem Inv2.poolPoll {s : State} (h : Inv2 s) (pick : Option Nat) : Inv2 (poolP
       rw [hq]; exact pickMsg_mem m0 r pick
     · exact h.advanceLocal
 
+theorem Inv2.transportPoll {s : State} (h : Inv2 s) : Inv2 (transportPoll s).1 := by
+  unfold C07.transportPoll
+  split
+  · have h0 : Inv2 { s with incomingQ := s.incomingQ - 1 } := h.frame rfl rfl rfl rfl rfl rfl rfl rfl rfl rfl rfl
+    exact h0.alloc 0 true false
+  · exact h
+
 theorem Inv2.poolPart {s : State} (h : Inv2 s) (pick : Option Nat) : Inv2 (poolPart s pick).1 := by
   unfold C07.poolPart
   have := h.poolPoll pick
-  split <;> simp_all
+  split
+  · simp_all
+  · rename_i s' heq
+    rw [heq] at this
+    exact Inv2.transportPoll this
 
 theorem Inv2.pollLoop (fuel : Nat) : ∀ {s : State}, Inv2 s → ∀ pick, Inv2 (pollLoop fuel s pick).1 := by
   induction fuel with
@@ -118,7 +153,7 @@ theorem Inv2.pollLoop (fuel : Nat) : ∀ {s : State}, Inv2 s → ∀ pick, Inv2 
     intro s h pick
     unfold C07.pollLoop
     split
-    · exact h.frame rfl rfl rfl rfl rfl rfl rfl rfl rfl rfl
+    · exact h.frame rfl rfl rfl rfl rfl rfl rfl rfl rfl rfl rfl
     · split
       · rename_i p hp
         have hd := h.deliverPending hp
@@ -135,25 +170,42 @@ theorem Inv2.pollLoop (fuel : Nat) : ∀ {s : State}, Inv2 s → ∀ pick, Inv2 
           exact ih (h.handleBeh hp hq) pick
         · exact h.poolPart pick
 
+theorem pushCmds_clock (cmds : List ECmd) : ∀ s : State, (pushCmds s cmds).clock = s.clock := by
+  induction cmds with
+  | nil => intro s; rfl
+  | cons c r ih => intro s; cases c <;> (rw [pushCmds, ih])
+
 theorem Inv2.pushCmds {s : State} (h : Inv2 s) (cmds : List ECmd) : Inv2 (pushCmds s cmds) := by
   obtain ⟨a, b, c, d, e, f, g⟩ := pushCmds_fields cmds s
   exact ⟨h.inv.pushCmds cmds, h.uniq.pushCmds cmds,
     h.ids.congr (by simp only [State.allIds, a, b, c, d]) e,
-    h.strong.of_mono (Mono.of_conns a b) f g⟩
+    h.strong.of_mono (Mono.of_conns a b) f g, h.time.frame a b f (pushCmds_clock cmds s)⟩
+
+theorem resolve_ids (l : List Dial) (c p : Nat) :
+    (l.map (fun d => if d.id == c && !d.resolved then
+        { d with resolved := true, peer := if d.inbound then p else d.peer } else d)).map (·.id)
+      = l.map (·.id) := by
+  apply dial_ids
+  intro d; split <;> rfl
 
 theorem Inv2.step {s : State} (h : Inv2 s) (op : Op) : Inv2 (step s op).1 := by
   cases op with
-  | connect p =>
-    exact ⟨h.inv.step (.connect p), h.uniq.of_cnt rfl (fun n => rfl), h.ids.connect p,
-      h.strong.of_mono (Mono.of_conns rfl rfl) rfl rfl⟩
+  | connect p => exact h.alloc p false true
+  | dial p =>
+    simp only [C07.step]
+    split
+    · exact h.alloc p false true
+    · exact (h.alloc p false false).frame rfl rfl rfl rfl rfl rfl rfl rfl rfl rfl rfl
+  | resolve c p => exact h.frame rfl rfl rfl rfl rfl rfl rfl rfl (resolve_ids _ c p) rfl rfl
+  | incoming => exact h.frame rfl rfl rfl rfl rfl rfl rfl rfl rfl rfl rfl
   | close c => exact h.startCloseAt c
   | disconnect p => exact h.disconnect p
   | rclose c =>
     exact h.updConn c _ (fun k hk => ⟨hk.tgt, hk.sorted, hk.below, hk.open_, hk.nac⟩) (fun _ => rfl)
-      (fun _ => rfl) (fun _ hk => hk)
+      (fun _ => rfl) (fun _ hk => hk) (fun _ => rfl) (fun _ => rfl)
   | emit cmds => exact h.pushCmds cmds
   | poll pick =>
-    have h0 : Inv2 { s with bad := false } := h.frame rfl rfl rfl rfl rfl rfl rfl rfl rfl rfl
+    have h0 : Inv2 { s with bad := false } := h.frame rfl rfl rfl rfl rfl rfl rfl rfl rfl rfl rfl
     have := Inv2.pollLoop (pollFuel s) h0 pick
     simp only [C07.step]
     exact this
@@ -162,6 +214,6 @@ theorem Inv2.init (n : Nat) : Inv2 (State.init n) :=
   ⟨Inv.init n, Unique.init n,
    ⟨by intro id; simp [State.allIds, State.init, cids], by intro id hid; simp [State.allIds, State.init, cids] at hid⟩,
    ⟨by intro p ids0 hp; simp [State.init] at hp, by intro p ids0 cur hp; simp [State.init] at hp,
-    by intro d hd; simp [State.init] at hd⟩⟩
+    by intro d hd; simp [State.init] at hd⟩, Time.init n⟩
 
 end C07
